@@ -429,8 +429,10 @@ Inductive ostep :=
 Record trace := mkTrace {
   t_tl : N;
   t_np : N;   (* number of sync projectors of the test application *)
-  (* judge everything except "exactly one reply": set on the second copy of a trace in which the
-     processor died, so that the known finding F11 cannot hide another violation *)
+  (* judge everything except the clauses of the recorded findings ("exactly one reply": F11, repaired;
+     "an error reply for a failed PLog write means the command is in no store", asked also of a
+     write that failed after taking effect: C01-F2): set on the second copy of a trace that shows
+     one of them, so that a known finding cannot hide another violation *)
   t_lenient : bool;
   t_steps : list ostep;
   (* read back after the last command: PLog, WLog per workspace, records, view rows per projector *)
@@ -563,6 +565,10 @@ Definition plog_no_effect (plan : list fault) (fired : list bool) : bool :=
   existsb (fun x => match fst x with (TPLog, _, FBefore) | (TPLog, _, FExists) => snd x | _ => false end)
           (combine plan fired).
 
+(* the PLog write of the command was hit by a fault of any kind (so an error after its effect too) *)
+Definition plog_faulted (plan : list fault) (fired : list bool) : bool :=
+  existsb (fun x => match fst x with (TPLog, _, _) => snd x | _ => false end) (combine plan fired).
+
 Definition insert_only (c : command) : bool :=
   negb (c_bad c) && negb (match c_ops c with [] => true | _ => false end)
   && forallb (fun o => match o with Ins _ _ => true | _ => false end) (c_ops c)
@@ -583,7 +589,12 @@ Fixpoint replies_ok (lenient : bool) (es : list event) (tag : N) (os : list oste
        | RServer | RNone =>
            match find_tag es tag with
            | [] => true
-           | [e] => event_matches c e && negb (plog_no_effect plan fired)
+           | [e] =>
+               (* "a command answered with an error because the partition-log write failed is in none
+                  of them": read literally, also when the write reported its error after taking
+                  effect (known finding C01-F2; the lenient copy asks it only of writes without effect) *)
+               event_matches c e
+               && negb (if lenient then plog_no_effect plan fired else plog_faulted plan fired)
            | _ => false
            end
        end)
@@ -638,6 +649,14 @@ Fixpoint written_cmds (tag : N) (steps : list step) (outs : list outcome) : list
   match steps, outs with
   | SRestart :: r, _ => written_cmds tag r outs
   | SCmd c _ :: r, o :: os => (if o_written o then [(tag, c, o)] else []) ++ written_cmds (tag + 1) r os
+  | _, _ => []
+  end.
+
+(* all commands of a history with their stamps and outcomes *)
+Fixpoint stamped (tag : N) (steps : list step) (outs : list outcome) : list (N * command * outcome) :=
+  match steps, outs with
+  | SRestart :: r, _ => stamped tag r outs
+  | SCmd c _ :: r, o :: os => (tag, c, o) :: stamped (tag + 1) r os
   | _, _ => []
   end.
 
